@@ -27,7 +27,7 @@ OPS = ['decompose M0', 'decompose M1', 'estimate+evaluate latest', 'merge L into
        'merge conflicting data into the other library with overwrite']
 BOUNDS = {
     'quick': 'every history of <= 4 operations drawn from 6 kinds over 2 abstract molecules and 3 library objects, followed by '
-             'four probes (estimate from an EARLIER decomposition incl. the elemental reference, a new decomposition, library '
+             'five probes (estimate from an EARLIER decomposition and from the most recent REPEATED decomposition of the same molecule, incl. the elemental reference, a new decomposition, library '
              'contents, a freshly default-constructed scheme)',
     'thorough': 'histories of <= 5 operations',
 }
@@ -99,9 +99,11 @@ def h_history(d: bool):
                                                    for g in DATA))
         d0 = L.GetDescriptors('M0')                 # the EARLIER decomposition the probe will estimate from
         latest = ('M0', d0)
+        last_m0 = d0                                # the most recent decomposition of M0 (a repeated one after op 0)
         for o in ops:
             if o == 0:
                 latest = ('M0', L.GetDescriptors('M0'))
+                last_m0 = latest[1]
             elif o == 1:
                 latest = ('M1', L.GetDescriptors('M1'))
             elif o == 2:
@@ -133,6 +135,13 @@ def h_history(d: bool):
                           'molecule it is %r' % (s_el, want), [OPS[o] for o in ops])
         if abs(est.get_HoRT(T) - DATA['C(H)'][0]) > 1e-12 or abs(est.get_SoR(T) - DATA['C(H)'][1]) > 1e-12:
             return finish(False, 'estimate values depend on history')
+        if dict(last_m0) != EXPECT['M0']:
+            return finish(False, 'a repeated decomposition of the same molecule differs from the first')
+        est2 = L.Estimate(last_m0, 'thermochem')
+        s_el2 = est2.get_SoR(T, S_elements=True)
+        if abs(s_el2 - want) > 1e-9 or abs(est2.get_HoRT(T) - DATA['C(H)'][0]) > 1e-12:
+            return finish(False, 'estimate-from-a-repeated-decomposition: S/R with the elemental reference is %r, for this '
+                          'molecule it is %r' % (s_el2, want), [OPS[o] for o in ops])
         if dict(L.GetDescriptors('M1')) != EXPECT['M1']:
             return finish(False, 'a new decomposition depends on history')
         for g in DATA:
